@@ -52,3 +52,9 @@ def transparent_when_true(case, ctx):
 
 
 check_case, run, replay = gfi_hist.make_prop(CFG, CHECKS, kinds=TOP, nontrivial=nontrivial, examples=(6, 6), pre=transparent_when_true)
+
+
+def probes(ctx):
+    from vpbt import gfi_probes
+
+    gfi_probes.run_probes(ctx, ['assess_empty_sample'])
